@@ -152,6 +152,15 @@ def constructed(rng):
         dd(0, s, x, t)
         dd(x, t, 0, s)
         dd(0, s, 0, t)
+    # 6b. operands at the widths of the primitive types, divisors +-1, +-2, 3, 10 (narrow-type fast paths)
+    for c in G.type_boundary_coeffs():
+        for s in (0, 1, 9, 17, 18):
+            for b, q in ((1, 0), (-1, 0), (2, 0), (-2, 0), (3, 0), (10, 1), (-10, 1), (-P10[q2 := rng.randrange(0, 19)], q2)):
+                dd(c, s, b, q)
+                if rng.random() < 0.3:
+                    dd(b, q, c, s)
+            out.append("%s * %s i64:-1" % (rng.choice(("div", "cdiv")), G.fD(c, s)))
+            out.append("%s * %s u8:2" % (rng.choice(("div", "cdiv")), G.fD(c, s)))
     # 7. integer operands
     for ty in OP_INT_TYPES:
         lo, hi = INT_TYPES[ty]
